@@ -235,7 +235,7 @@ def sender(ctx, n_gen):
         what = f"sender component, program {progs[i]['id']} ({progs[i]['class']}): " + (
             bad[0].get('msg', '') if bad else 'the messages put on the stream are not ranges of whole batches of the primary log that hand the replica '
             f"every entry once, in order (log entries handed over: {fin[0]['n'] if fin else '?'} of {sum(len(e['op']) for e in runs[i] if e['e'] == 'w')}; "
-            f"messages by sequence: {[[x['seq'] for x in e['ents']] for e in runs[i] if e['e'] == 'm'][:8]})")
+            f"messages as (sequence x entries): {[[(q, sum(1 for x in e['ents'] if x['seq'] == q)) for q in sorted({x['seq'] for x in e['ents']})] for e in runs[i] if e['e'] == 'm'][:8]})")
         if again:
             ctx.violations.append({'what': what, 'replay': save_replay(ctx, 'send', {'prog': progs[i], 'trace': runs[i]})})
         else:
@@ -374,8 +374,14 @@ def explain_sys(ev):
         return 'driver error: ' + errs[0].get('msg', '')[:300]
     last = ev[-1]
     if last['e'] == 'noconv':
-        return (f"replica did not converge within the deadline: primary {json.dumps(last.get('pst'), sort_keys=True)} replica "
-                f"{json.dumps(last.get('rst'), sort_keys=True)} (replica state {last.get('replica_state')})")
+        pst, rst = last.get('pst') or {}, last.get('rst') or {}
+        if len(pst) > 6:     # many keys: only those that differ
+            diff = sorted(k for k in pst if pst.get(k) != rst.get(k))
+            pst, rst = {k: pst[k] for k in diff[:6]}, {k: rst.get(k) for k in diff[:6]}
+            return (f"replica did not converge within the deadline: {len(diff)} keys differ, e.g. primary {json.dumps(pst, sort_keys=True)} "
+                    f"replica {json.dumps(rst, sort_keys=True)} (replica state {last.get('replica_state')})")
+        return (f"replica did not converge within the deadline: primary {json.dumps(pst, sort_keys=True)} replica "
+                f"{json.dumps(rst, sort_keys=True)} (replica state {last.get('replica_state')})")
     return 'recorded trace is not a behaviour of TRACE_Repl (a sample is no prefix state of the primary history, the matched prefix ' \
            'or the reported sequence went back, reported exceeds applied, or a client write on the replica was accepted)'
 
